@@ -148,7 +148,3 @@ func cmdVerify(args []string) {
 	fmt.Printf("names: %d ok, %d failed, %d unknown\n", nd, nf, nu)
 }
 
-func cmdCheck(args []string) int {
-	fmt.Println("check: not built yet")
-	return 2
-}
